@@ -1,11 +1,16 @@
 #!/bin/bash
 # tools/seed_tests.sh <worktree-id>...  -- run the repository's own unit tests inside each scratch worktree with its change applied
 # (same pytest invocation as the pinned baseline, tests/unit only); result line in /tmp/wt/_tests_<id>.txt
+# The pinned threaded runtime occasionally hangs in async fixtures under load (observation O3): a hung attempt is cut after 6 minutes and retried.
 for id in "$@"; do
   WT=/tmp/wt/$id
   cd $WT || continue
   if [ -z "$(git diff -- rex | head -1)" ]; then [ -s patch.diff ] && git apply patch.diff; fi
   if [ -z "$(git diff -- rex | head -1)" ]; then echo "$id NO-CHANGE-APPLIED" > /tmp/wt/_tests_$id.txt; continue; fi
-  JAX_PLATFORMS=cpu PYTHONPATH=$WT timeout 1500 /venv/bin/python -m pytest -q -p no:cacheprovider --timeout=900 tests/unit -x --deselect tests/unit/test_jax_utils.py::test_same_structure --deselect tests/unit/test_transforms.py::test_chain --deselect tests/unit/test_transforms.py::test_extend > /tmp/wt/_tests_$id.log 2>&1
-  echo "$id rc=$? $(grep -E "passed|failed" /tmp/wt/_tests_$id.log | tail -1)" > /tmp/wt/_tests_$id.txt
+  for attempt in 1 2 3; do
+    JAX_PLATFORMS=cpu PYTHONPATH=$WT timeout 360 /venv/bin/python -m pytest -q -p no:cacheprovider --timeout=300 tests/unit -x --deselect tests/unit/test_jax_utils.py::test_same_structure --deselect tests/unit/test_transforms.py::test_chain --deselect tests/unit/test_transforms.py::test_extend > /tmp/wt/_tests_$id.log 2>&1
+    rc=$?
+    echo "$id rc=$rc attempt=$attempt $(grep -E "passed|failed" /tmp/wt/_tests_$id.log | tail -1)" > /tmp/wt/_tests_$id.txt
+    [ $rc -eq 0 ] && break
+  done
 done
